@@ -1,4 +1,223 @@
-(** C10 — property theorems (statements + [exact] + [Print Assumptions] only). *)
+(** C10 (the structural invariant holds in every reachable state, the worker never panics), with
+    the LSM-level parts of C07 (internal steps are invisible) and C03 (a live snapshot keeps its
+    view) — property theorems about the model [model/Lsm.v] with both repairs
+    ([d1fix = true], [d14fix = true], the current code). Statements + [exact] +
+    [Print Assumptions] only, plus [Example]s spelling out the definitions used in the
+    statements, a non-vacuity run and the sensitivity witness for D1. *)
 From RainVerif Require Import Params.
-From RainVerif.model Require Import Bytes Key Version Lsm LsmSpec.
+From RainVerif.model Require Import Bytes Key Block Table TableSpec Version Lsm LsmSpec DbSpec.
+From RainVerif.proofs Require Import SelectProofs LsmProofs.
 Open Scope N_scope.
+
+(** * The definitions used below *)
+
+(** a deeper-level seed may leave a boundary file (a file that continues, with older versions,
+    the user key on which a seed file ends) outside only if that file is also a boundary file of
+    the seed's largest file, from which [add_boundary_inputs] starts: true of a single file
+    (pick_compaction) and of every contiguous run of files of the level (compact_range: the
+    files overlapping a key range, possibly truncated to a prefix) *)
+Example C10_seed_top_closed_def : forall lf seed,
+  seed_top_closed lf seed =
+  (forall h b, In h seed -> In b lf -> ~ In b seed ->
+     ikey_lt (fm_large h) (fm_small b) -> ik_user (fm_small b) = ik_user (fm_large h) ->
+     exists t, In t seed /\ (forall g, In g seed -> ikey_le (fm_large g) (fm_large t))
+               /\ ikey_lt (fm_large t) (fm_small b) /\ ik_user (fm_small b) = ik_user (fm_large t)).
+Proof. reflexivity. Qed.
+
+(** a level-0 seed is closed under overlap (pick_compaction / compact_range compute the closure) *)
+Example C10_hull_closed_def : forall fs sel,
+  hull_closed fs sel =
+  (forall lo hi f, hull sel = Some (lo, hi) -> In f fs -> file_meets lo hi f = true -> In f sel).
+Proof. reflexivity. Qed.
+
+Example C10_compact_adm_def : forall s level seed,
+  compact_adm s level seed =
+  ((S level < length (l_ver s))%nat /\
+   files_of (l_ver s) level seed <> [] /\
+   (level = O -> hull_closed (level_files (l_ver s) O) (files_of (l_ver s) level seed)) /\
+   (level <> O -> seed_top_closed (level_files (l_ver s) level) (files_of (l_ver s) level seed))).
+Proof. reflexivity. Qed.
+
+Example C10_step_admissible_def : forall s st,
+  step_admissible s st =
+  match st with
+  | SFlush => l_seq s <= MAX_SEQ
+  | SCompact level seed _ => compact_adm s level seed /\ smallest_snapshot s < MAX_SEQ
+  | STrivialMove level seed => compact_adm s level seed
+  | _ => True
+  end.
+Proof. reflexivity. Qed.
+
+Example C10_run_adm_def : forall mfs s st r,
+  run_adm mfs s [] = True /\
+  run_adm mfs s (st :: r) = (step_admissible s st /\ run_adm mfs (lsm_step true true mfs s st) r).
+Proof. split; reflexivity. Qed.
+
+Example C10_internal_def : forall st,
+  internal st = match st with
+                | SRotate | SFlush | SCompact _ _ _ | STrivialMove _ _ => True
+                | _ => False
+                end
+  /\ internal_nomerge st = match st with
+                           | SRotate | SFlush | STrivialMove _ _ => True
+                           | _ => False
+                           end.
+Proof. split; reflexivity. Qed.
+
+(** * C10: every admissible step keeps the invariant; the worker never panics *)
+
+Theorem C10_step_preserves_wf :
+  forall mfs s st, lsm_wf_b s = true -> step_admissible s st ->
+                   lsm_wf_b (lsm_step true true mfs s st) = true.
+Proof. exact step_preserves_wf. Qed.
+Print Assumptions C10_step_preserves_wf.
+
+Theorem C10_step_no_panic :
+  forall mfs s st, lsm_wf_b s = true -> step_admissible s st ->
+                   l_panic (lsm_step true true mfs s st) = false.
+Proof. exact step_no_panic. Qed.
+Print Assumptions C10_step_no_panic.
+
+Theorem C10_run_wf :
+  forall mfs steps s, lsm_wf_b s = true -> run_adm mfs s steps ->
+                      lsm_wf_b (fold_left (lsm_step true true mfs) steps s) = true.
+Proof. exact run_wf. Qed.
+Print Assumptions C10_run_wf.
+
+Theorem C10_reachable_wf :
+  forall mfs steps, run_adm mfs lsm_init steps ->
+                    lsm_wf_b (fold_left (lsm_step true true mfs) steps lsm_init) = true.
+Proof. exact reachable_wf. Qed.
+Print Assumptions C10_reachable_wf.
+
+Theorem C10_reachable_shape_ok :
+  forall mfs steps, run_adm mfs lsm_init steps ->
+    let s := lsm_run true true mfs steps in
+    shape_ok (l_ver s) (file_entries s) = true /\ l_panic s = false.
+Proof. exact reachable_shape_ok. Qed.
+Print Assumptions C10_reachable_shape_ok.
+
+(** admissibility is decidable on concrete runs (sound check) *)
+Theorem C10_run_adm_b_sound :
+  forall mfs steps s, run_adm_b true true mfs s steps = true -> run_adm mfs s steps.
+Proof. exact run_adm_b_sound. Qed.
+Print Assumptions C10_run_adm_b_sound.
+
+(** * C07: internal steps are invisible *)
+
+Theorem C10_c07_internal_step_invisible :
+  forall mfs s st, lsm_wf_b s = true -> step_admissible s st -> internal st ->
+    forall q k, smallest_snapshot s <= q ->
+      visible (all_entries (lsm_step true true mfs s st)) q k = visible (all_entries s) q k.
+Proof. exact internal_step_invisible. Qed.
+Print Assumptions C10_c07_internal_step_invisible.
+
+Theorem C10_c07_internal_step_invisible_all :
+  forall mfs s st, lsm_wf_b s = true -> step_admissible s st -> internal_nomerge st ->
+    forall q k, visible (all_entries (lsm_step true true mfs s st)) q k = visible (all_entries s) q k.
+Proof. exact internal_step_invisible_all. Qed.
+Print Assumptions C10_c07_internal_step_invisible_all.
+
+Theorem C10_c07_db_get_unchanged :
+  forall mfs s st, lsm_wf_b s = true -> step_admissible s st -> internal st ->
+    forall q k, smallest_snapshot s <= q ->
+      db_get_at (lsm_step true true mfs s st) k q = db_get_at s k q.
+Proof. exact C07_db_get_unchanged. Qed.
+Print Assumptions C10_c07_db_get_unchanged.
+
+(** * C03: a live snapshot keeps its view *)
+
+Theorem C10_c03_snapshot_stable :
+  forall mfs steps s q, lsm_wf_b s = true -> In q (l_snaps s) -> run_adm mfs s steps ->
+    ~ In (SRelease q) steps ->
+    let s' := fold_left (lsm_step true true mfs) steps s in
+    forall k, visible (all_entries s') q k = visible (all_entries s) q k
+              /\ db_get_at s' k q = db_get_at s k q.
+Proof. exact snapshot_stable. Qed.
+Print Assumptions C10_c03_snapshot_stable.
+
+
+(** [l_snaps] is a multiset: [q] keeps its view as long as it is released fewer times than held *)
+Example C10_c03_releases_def : forall q st r,
+  releases q [] = O /\
+  releases q (st :: r) = match st with
+                         | SRelease q' => ((if N.eqb q' q then 1 else 0) + releases q r)%nat
+                         | _ => releases q r
+                         end.
+Proof. intros q st r. split; [reflexivity|destruct st; reflexivity]. Qed.
+
+Theorem C10_c03_snapshot_stable_multiset :
+  forall mfs steps s q, lsm_wf_b s = true -> run_adm mfs s steps ->
+    (releases q steps < count_occ N.eq_dec (l_snaps s) q)%nat ->
+    let s' := fold_left (lsm_step true true mfs) steps s in
+    forall k, visible (all_entries s') q k = visible (all_entries s) q k
+              /\ db_get_at s' k q = db_get_at s k q.
+Proof. exact snapshot_stable_multiset. Qed.
+Print Assumptions C10_c03_snapshot_stable_multiset.
+
+(** * Non-vacuity: a run reaching three levels, compacting twice under a live snapshot *)
+
+Example C10_ex_run_admissible : run_adm ex_mfs lsm_init (ex_prefix ++ ex_suffix).
+Proof. exact ex_run_admissible. Qed.
+
+Example C10_ex_three_levels :
+  map (@length fmeta) (l_ver ex_before_compactions) = [2; 1; 1; 0; 0; 0; 0]%nat
+  /\ l_snaps ex_before_compactions = [5].
+Proof. exact ex_three_levels. Qed.
+
+Example C10_ex_end_shape :
+  map (@length fmeta) (l_ver ex_end) = [0; 0; 2; 0; 0; 0; 0]%nat
+  /\ lsm_wf_b ex_end = true /\ l_panic ex_end = false /\ l_snaps ex_end = [5].
+Proof. exact ex_end_shape. Qed.
+
+Example C10_ex_views :
+  map (fun k => visible (all_entries ex_mid) 5 k) [xa; xb; xc; xd] = [Some [4]; None; Some [3]; None]
+  /\ map (fun k => visible (all_entries ex_end) 5 k) [xa; xb; xc; xd] = [Some [4]; None; Some [3]; None]
+  /\ map (fun k => db_get_at ex_end k 5) [xa; xb; xc; xd] = [Some [4]; None; Some [3]; None]
+  /\ map (fun k => db_get ex_end k) [xa; xb; xc; xd] = [Some [8]; Some [6]; Some [7]; None].
+Proof. exact ex_views. Qed.
+
+Example C10_ex_theorem_applies :
+  forall k, visible (all_entries ex_end) 5 k = visible (all_entries ex_mid) 5 k
+            /\ db_get_at ex_end k 5 = db_get_at ex_mid k 5.
+Proof. exact ex_theorem_applies. Qed.
+
+(** * Sensitivity: with the pinned [key_range_for_files] (D1) an admissible level-0 compaction
+    trips the overlap assertion; with the repair the same run keeps the invariant *)
+Example C10_d1_witness :
+  run_adm_b false true ex_mfs lsm_init d1_steps = true
+  /\ l_panic (lsm_run false true ex_mfs d1_steps) = true
+  /\ run_adm_b true true ex_mfs lsm_init d1_steps = true
+  /\ lsm_wf_b (lsm_run true true ex_mfs d1_steps) = true.
+Proof. exact d1_witness. Qed.
+
+(** * Each clause of [step_admissible] is needed (well-formed states, one clause violated) *)
+Example C10_clause_top_closed_needed :
+  let st := SCompact 1 [1; 3] [] in
+  let w' := lsm_step true true ex_mfs w_top st in
+  lsm_wf_b w_top = true /\ step_admissible_b w_top st = false /\ l_panic w' = false
+  /\ lsm_wf_b w' = false /\ db_get_at w_top xb 9 = Some [2] /\ db_get_at w' xb 9 = Some [3]
+  /\ step_admissible_b w_top (SCompact 1 [1] []) = true.
+Proof. exact clause_top_closed_needed. Qed.
+
+Example C10_clause_hull_closed_needed :
+  let st := SCompact 0 [2] [] in
+  let w' := lsm_step true true ex_mfs w_hull st in
+  lsm_wf_b w_hull = true /\ step_admissible_b w_hull st = false /\ l_panic w' = false
+  /\ lsm_wf_b w' = false /\ db_get_at w_hull xb 9 = Some [2] /\ db_get_at w' xb 9 = Some [1].
+Proof. exact clause_hull_closed_needed. Qed.
+
+Example C10_clause_seq_bound_needed :
+  let w' := lsm_step true true ex_mfs w_seq SFlush in
+  lsm_wf_b w_seq = true /\ step_admissible_b w_seq SFlush = false /\ l_panic w' = false
+  /\ lsm_wf_b w' = false
+  /\ db_get_at w_seq xa 18446744073709551617 = Some [2]
+  /\ db_get_at w' xa 18446744073709551617 = Some [1].
+Proof. exact clause_seq_bound_needed. Qed.
+
+Example C10_clause_snapshot_bound_needed :
+  let st := SCompact 0 [1] [] in
+  let w' := lsm_step true true ex_mfs w_ss st in
+  lsm_wf_b w_ss = true /\ step_admissible_b w_ss st = false
+  /\ visible (all_entries w_ss) MAX_SEQ xa = Some [1] /\ visible (all_entries w') MAX_SEQ xa = None.
+Proof. exact clause_snapshot_bound_needed. Qed.
